@@ -30,8 +30,10 @@
 (*                           64-bit integer (carry from word 12 into word   *)
 (*                           13; wraps modulo 2^64, never into the nonce).  *)
 (*                           The last block may be partial.                 *)
+(* TLC!TLCEval(v) = v; it only makes TLC evaluate an accumulator eagerly    *)
+(* instead of piling up one lazy thunk per iteration (stack depth).         *)
 (***************************************************************************)
-EXTENDS Words
+EXTENDS Words, TLC
 
 \* s.3.1  a += b; d ^= a; d <<<= 16;  c += d; b ^= c; b <<<= 12;
 \*        a += b; d ^= a; d <<<= 8;   c += d; b ^= c; b <<<= 7
@@ -84,6 +86,6 @@ RECURSIVE ChachaXorR(_,_,_,_,_,_)
 ChachaXorR(key, nonce, ctr, rounds, m, acc) ==
   IF Len(m) = 0 THEN acc
   ELSE ChachaXorR(key, nonce, WAddNat(ctr, 1), rounds, Drop(m, 64),
-                  acc \o XorBytes(Take(m, 64), ChachaBlock(key, nonce, ctr, rounds)))
+                  TLCEval(acc \o XorBytes(Take(m, 64), ChachaBlock(key, nonce, ctr, rounds))))
 ChachaXor(key, nonce, ctr0, rounds, m) == ChachaXorR(key, nonce, ctr0, rounds, m, <<>>)
 =============================================================================
